@@ -351,9 +351,14 @@ def run(ctx):
     for k in ("shapes", "cov", "cdef"):
         if not R[k].ok or not R[k].cases:
             raise vlib.Infra("generator %s failed: %s %s" % (k, R[k].violated, R[k].error_text[:800]))
-    gen = {"shape": [], "huge": [], "gdef": [], "lists": []}
+    gen = {"shape": [], "huge": [], "off": [], "field": [], "gdef": [], "lists": []}
     for c in R["shapes"].cases:
-        gen["huge" if c["what"] == "shape" and c["k"].startswith("huge") else c["what"]].append(c)
+        if c["what"] == "shape" and c["k"].startswith("huge"):
+            gen["huge"].append(c)
+        elif c["what"] == "shape" and c["k"] == "off":
+            gen["off"].append(c)
+        else:
+            gen[c["what"]].append(c)
     if not all(gen.values()):
         raise vlib.Infra("generator produced no %s" % [k for k, v in gen.items() if not v])
     ctx.cov["bounds"] = {
@@ -362,7 +367,7 @@ def run(ctx):
         "realised": "stratified seeded sample of the plans (every class of model verdict x reordering x replaced lookups x "
                     "lookup count), plus contextual-only variants",
         "shapes": "%d subtable shapes, %d GDEF, %d script/feature list shapes, %d coverage and %d classdef run structures"
-                  % (len(gen["shape"]) + len(gen["huge"]), len(gen["gdef"]), len(gen["lists"]),
+                  % (len(gen["shape"]) + len(gen["huge"]) + len(gen["off"]), len(gen["gdef"]), len(gen["lists"]),
                      len(R["cov"].cases), len(R["cdef"].cases)),
     }
     model_gap = sum(1 for p in plans if p["model"] != "ok")
@@ -377,12 +382,14 @@ def run(ctx):
     for p in chosen:
         q = dict(p)
         q["what"] = "plan"
+        q.pop("big", None)      # index of the biggest lookup in the model; "big" means something else for shapes
         lines.append(q)
     # contextual-only lookup lists (the encoder must still know whether 7 or 9 is the extension type)
     ctxv = [p for p in chosen if p["tooLarge"] and p["nrepl"] > 0][:ctx.pick(6, 60)]
     for i, p in enumerate(ctxv):
         q = dict(p)
         q.update(what="plan", pref="ctx", tab=("GSUB", "GPOS")[i % 2])
+        q.pop("big", None)
         lines.append(q)
     ctx.sample({"plan_from_TLC": chosen[0]})
     gap = [p for p in chosen if p["model"] != "ok"]
@@ -396,7 +403,10 @@ def run(ctx):
     rng.shuffle(shapes)
     if quick:
         shapes = shapes[:2500]
-    slines = shapes + gen["huge"] + gen["gdef"] + gen["lists"]
+    # one component beyond 64 KiB, for every subtable format and every component (all of them in both tiers:
+    # about 90 cases, a few seconds)
+    offs = sorted(gen["off"], key=lambda c: (c["t"], c["big"]))
+    slines = shapes + gen["huge"] + offs + gen["gdef"] + gen["lists"]
     ctx.sample({"shape_from_TLC": shapes[0]})
     traces += _run_harness_parallel(ctx, binp, slines, d, "shapes", ctx.pick(2, 8))
 
@@ -429,6 +439,38 @@ def run(ctx):
             first_line = bad[cid][0][0]
             case["_tags"] = [t for (ln, t) in bad[cid] if ln == first_line]
             reported.setdefault(key, []).append(case)
+    # which (format, Offset16 field) pairs were pushed beyond 0xFFFF, and how the encoder answered
+    outcome = {}
+    for tp, (cases, bad) in zip(traces, validated):
+        offcase = {c["id"]: c for c in cases if c.get("class", "").startswith("off:")}
+        if not offcase:
+            continue
+        for e in vlib.read_ndjson(tp):
+            if e["ev"] == "encode" and e["case"] in offcase:
+                c = offcase[e["case"]]
+                outcome[c["class"]] = ("corrupt" if c["id"] in bad else
+                                       "refused" if e["outcome"] == "panic" else "encoded correctly")
+    fields = {}
+    for c in gen["off"]:
+        o = outcome.get("off:%s:%s" % (c["t"], c["big"]))
+        if o is None:
+            raise vlib.Infra("offset case %s/%s was not run" % (c["t"], c["big"]))
+        for f in c["fields"]:
+            fields.setdefault((c["t"], f), {}).setdefault(o, []).append(c["big"])
+    table = []
+    for fr in sorted(gen["field"], key=lambda r: (r["t"], r["field"])):
+        got = fields.get((fr["t"], fr["field"]), {})
+        table.append({"format": fr["t"], "field": fr["field"],
+                      "pushed_beyond_16_bits": bool(got.get("refused") or got.get("corrupt")),
+                      "by_big_component": got,
+                      "note": "" if fr["pushable"] else "no variable-size component precedes the coverage table: cannot overflow"})
+    ctx.cov["bounds"]["offset16_fields"] = table
+    npush = sum(1 for r in table if r["pushed_beyond_16_bits"])
+    ctx.notes.append("Offset16 fields: %d (format, field) pairs listed by LookupLayoutShapes.tla, %d pushed beyond 0xFFFF by at "
+                     "least one big-component shape and answered by refusal (or reported), %d cannot overflow or were "
+                     "encoded correctly in every arrangement tried: %s" % (
+                         len(table), npush, len(table) - npush,
+                         ", ".join("%s.%s" % (r["format"], r["field"]) for r in table if not r["pushed_beyond_16_bits"])))
     ctx.log("%d cases rejected in %d signatures" % (nbad, len(reported)))
     ctx.notes.append("diagnostic: the verdict predicted by the code model (ok / breaks a demand) agrees with the judgement of the "
                      "real encoder's bytes on %d of %d realised plans (contextual-only variants excluded)" % (agree[0], agree[1]))
